@@ -69,7 +69,9 @@ def same_value(exp: Any, got: Any) -> bool:
         return bool(exp.ok(got))
     if isinstance(exp, dict) and set(exp) == {"echo"}:
         b = exp["echo"]
-        return got in (b, bytearray(b), int.from_bytes(b, "little"), int.from_bytes(b, "big"))
+        # (odxtools reports the echoed request bytes as the integer read low-byte-first -- the reading its encoder demands
+        # for an explicitly supplied value -- or as the bytes themselves)
+        return got in (b, bytearray(b), int.from_bytes(b, "little"))
     if isinstance(exp, dict) and set(exp) == {"dtc"}:
         code = getattr(got, "trouble_code", got)
         return code == exp["dtc"]
